@@ -639,7 +639,12 @@ def gen_case(rng, malformed: bool = False, real_algos: bool = False, max_session
     (many simultaneous events), extra recomputes, period in {0.5,1,5,15}, max_recompute in
     {None,1,2,5}, scripted multi-period / empty schedulers (or a real algorithm)."""
     ns = rng.randint(1, max_stations)
-    stations = [{"id": f"S{i}", "kind": gen_kind(rng), "V": rng.choice([208, 208, 240, 120, 277.5]),
+    # registration order is NOT the lexicographic order of the ids in most cases (anything that silently
+    # re-sorts stations by id - a dict rebuilt from sorted keys, a set - must show up)
+    labels = [f"S{i}" for i in range(ns)]
+    if ns > 1 and rng.random() < 0.7:
+        labels = rng.sample(["S" + x for x in ("10", "2", "b", "A", "07", "a1", "Z", "0", "3", "x-1", "k", "11")], ns)
+    stations = [{"id": labels[i], "kind": gen_kind(rng), "V": rng.choice([208, 208, 240, 120, 277.5]),
                  "phase": rng.choice([0, 30, -90, 150])} for i in range(ns)]
     case: Dict[str, Any] = {"stations": stations}
     case["constraint"] = {"limit": rng.choice([40.0, 64.0, 200.0, 1000.0])} if (real_algos or rng.random() < 0.5) else None
